@@ -890,6 +890,8 @@ static const uint8_t *unmarshal_one_def(
     const uint8_t *data,
     JanetFuncDef **out,
     int flags) {
+    /* Nested sub funcdefs recurse here directly, without passing through unmarshal_one */
+    MARSH_STACKCHECK;
     MARSH_EOS(st, data);
     if (*data == LB_FUNCDEF_REF) {
         data++;
